@@ -1,3 +1,3 @@
 (* C11 proofs: the parts, re-exported for C11/Props.v *)
 From Wz Require Export C11.ProofsRange C11.ProofsWrapper C11.ProofsCond C11.ProofsResp C11.ProofsRefute C11.ProofsParse
-  C11.ProofsGrammar C11.ProofsEtags.
+  C11.ProofsGrammar C11.ProofsEtags C11.ProofsMore.
